@@ -224,6 +224,10 @@ func (g *generatorv2) typePrinter(f *file, addImports map[string]string, aliases
 				if !isPackagePathEquivalent(pkg, ip) {
 					continue
 				}
+				if imp.Name != nil && (imp.Name.Name == "_" || imp.Name.Name == ".") {
+					// Not a name to qualify a type with.
+					continue
+				}
 
 				// Using a named import.
 				if imp.Name != nil {
